@@ -287,7 +287,7 @@ def gen_pointer(r, doc, paths):
 
 # ---------------------------------------------------------------- cases
 
-CONV_TREE = ["fromnode", "fill", "clone"]
+CONV_TREE = ["fromnode", "fill", "fillclone", "clone"]
 CONV_BIN = ["tonode 0", "tonode 1", "clone", "poolclone", "rebuf"]
 
 
@@ -336,7 +336,7 @@ def make_case(r, kind, doc, npt=6, extra_ptrs=(), chain_len=None, flagset=(0, 1)
     for _ in range(steps):
         if form == "tree":
             op = r.choice(CONV_TREE)
-            if scalar and op == "fromnode":
+            if scalar and op in ("fromnode", "fillclone"):
                 op = "fill"
             ops.append(op)
             if op != "clone":
@@ -371,7 +371,7 @@ def check_case(doc, ops, out, ptrmap):
         if a[0] == "doc":
             if ln != "doc tree " + w0:
                 return "cls=harness: wire form not understood: %s" % ln[:200]
-        elif a[0] in ("fromnode", "fill", "tonode", "clone", "poolclone", "rebuf"):
+        elif a[0] in ("fromnode", "fill", "fillclone", "tonode", "clone", "poolclone", "rebuf"):
             if f[1] != "ok":
                 return "cls=conv-error: %s of a well-formed document failed: %s" % (op, ln[:100])
             if f[2] == "tree":
